@@ -196,6 +196,22 @@ theorem chain_entries_eq_prefix (ops : List Op) :
     (crun child ops).entries = (List.range (crun child ops).entries.length).map child :=
   crun_inv child ops
 
+/-- a scan never shrinks a chain: the entries held before are a prefix of the entries held after
+(each account and chain of a multi-account wallet is such a chain) -/
+theorem cscan_keeps (w : CW Pub) (n : Nat) (active : List Bool) (h : CInv child w) :
+    (cscan child w n active).entries.take w.entries.length = w.entries ∧
+    w.entries.length ≤ (cscan child w n active).entries.length := by
+  unfold cscan
+  by_cases hn : n = 0
+  · simp [hn]
+  · rw [if_neg hn]
+    unfold cgen
+    simp only [List.length_nil, Nat.zero_add, List.nil_append, List.length_map, List.length_range]
+    refine ⟨?_, by omega⟩
+    rw [List.range_add, List.map_append, List.take_append_of_le_length (by simp)]
+    rw [List.take_of_length_le (by simp)]
+    exact h.symm
+
 theorem cgen_batch (w : CW Pub) (a b : Nat) : cgen child (cgen child w a) b = cgen child w (a + b) := by
   simp only [cgen, List.length_append, List.length_map, List.length_range, List.append_assoc]
   congr 2
